@@ -112,6 +112,16 @@ SPECIAL_TEXTS = [
     b'?', b':', b'GOTO 0', b'ON ERROR GOTO 0', b'FOR I=1 TO 10:NEXT', b'PRINT "' + b'x' * 230 + b'"',
     b'REM ' + b'y' * 240, b'X=&H0', b'"', b'""""', b'PRINT "a";\x8f;"b"',
 ]
+# how the LAST line of an ASCII program file ends (files written by SAVE ,A end CR LF ^Z; files from editors may
+# end with a bare CR, with no line end at all, or with ^Z straight after the text)
+FILE_ENDS = {'crlf': b'\r\n', 'crlfz': b'\r\n\x1a', 'cr': b'\r', 'none': b'', 'z': b'\x1a'}
+
+
+def ascii_file(lines, end):
+    body = b'\r\n'.join(b'%d %s' % (n, txt(t)) for n, t in lines)
+    return body + FILE_ENDS[end or 'crlf']
+
+
 NUM_POOL = [0, 1, 2, 9, 10, 11, 255, 256, 257, 8224, 32767, 32768, 65528, 65529]
 
 
@@ -155,6 +165,10 @@ class C13(core.Check):
             # D13b: lines inserted before existing code bypassed the memory check
             {'mem': 5600, 'ops': [['S', n, 'REM ' + 'x' * 200] for n in (50, 40, 30, 20, 10)]},
             {'mem': 65534, 'ops': big},
+            # seed C13e: the last line of an ASCII file is not CR-terminated (MERGE keeps the stale line / LOAD drops it)
+            {'mem': 65534, 'ops': [['S', 20, 'PRINT "old"'], ['M', [[10, 'PRINT 1'], [20, 'PRINT 2']], 'none'], ['S', 30, 'END']]},
+            {'mem': 65534, 'ops': [['S', 5, 'END'], ['A', [[10, 'GOTO 20'], [20, 'PRINT 2']], 'z'], ['X', None, None, None]]},
+            {'mem': 65534, 'ops': [['A', [[10, 'PRINT 1']], 'none'], ['M', [[10, 'PRINT 9'], [5, 'END']], 'cr'], ['A', [[7, 'END']], 'crlfz']]},
             # seed C13b: RENUM rejected half-way (second line would pass 65529) must leave code and index consistent
             {'mem': 65534, 'ops': [['S', 10, 'GOTO 20'], ['S', 20, 'GOTO 10'], ['X', 65529, None, 1], ['S', 15, 'END']]},
             {'mem': 65534, 'ops': [['S', 10, 'GOTO 20'], ['S', 20, 'END'], ['L'], ['S', 15, 'PRINT 1'], ['L'],
@@ -222,7 +236,9 @@ class C13(core.Check):
                     ls.append([n, t])
                     if n not in have:
                         have.append(n)
-                ops.append(['M', ls])
+                ops.append([rng.choice(['M', 'M', 'A']), ls, rng.choice(['crlf', 'crlfz', 'cr', 'none', 'none', 'z', 'z'])])
+                if ops[-1][0] == 'A':
+                    have = [n for n, _ in ls]
             else:
                 ops.append(['N'])
                 have = []
@@ -230,7 +246,7 @@ class C13(core.Check):
 
     def gen_cases(self, n):
         rng = self.rng
-        hist = {'S': 0, 'S_empty': 0, 'D': 0, 'N': 0, 'R': 0, 'X': 0, 'L': 0, 'M': 0, 'small_memory': 0}
+        hist = {'S': 0, 'S_empty': 0, 'D': 0, 'N': 0, 'R': 0, 'X': 0, 'L': 0, 'M': 0, 'A': 0, 'file_last_line_without_CR': 0, 'small_memory': 0}
         out = []
         maxops = 300 if self.tier == 'thorough' else 200
         for i in range(n):
@@ -258,6 +274,8 @@ class C13(core.Check):
                     hist['S_empty'] += 1
                 else:
                     hist[k] += 1
+                if k in ('M', 'A') and len(o) > 2 and o[2] in ('none', 'z'):
+                    hist['file_last_line_without_CR'] += 1
             hist['small_memory'] += mem != MEMS[0]
             out.append({'mem': mem, 'ops': ops})
         self.histogram = hist
@@ -307,11 +325,11 @@ class C13(core.Check):
                             out = s.execute(b'SAVE "T"')
                             if not err_of(out):
                                 out = s.execute(b'LOAD "T"')
-                        elif o[0] == 'M':
+                        elif o[0] in ('M', 'A'):
                             res['bufs'].append([tokenise(s, n, txt(t)) for n, t in o[1]])
                             with open(os.path.join(s._c13_dir, 'M.BAS'), 'wb') as f:
-                                f.write(b''.join(b'%d %s\r\n' % (n, txt(t)) for n, t in o[1]))
-                            out = s.execute(b'MERGE "M"')
+                                f.write(ascii_file(o[1], o[2] if len(o) > 2 else 'crlf'))
+                            out = s.execute(b'MERGE "M"' if o[0] == 'M' else b'LOAD "M"')
                         else:
                             res['bufs'].append(None)
                             p.rebuild_line_dict()
@@ -372,8 +390,8 @@ class C13(core.Check):
                 ops.append('XRenum %s %s %s' % (opt(o[1]), opt(o[2]), opt(o[3])))
             elif o[0] == 'L':
                 ops.append('XSaveLoad')
-            elif o[0] == 'M':
-                ops.append('XMerge [%s]' % '; '.join(zl_rle(b) for b in buf))
+            elif o[0] in ('M', 'A'):
+                ops.append('%s [%s]' % ('XMerge' if o[0] == 'M' else 'XLoadAscii', '; '.join(zl_rle(b) for b in buf)))
             else:
                 ops.append('XBase ORebuild')
         return ('(xtrace {| cs := %d; limit := %d |} [%s])' % (r['cs'], r['limit'], '; '.join(ops)))
@@ -445,7 +463,9 @@ class C13(core.Check):
                 if st != 0:
                     return None, 0, 'SAVE/LOAD reported error %d' % (st - 100)
                 ntail += 1
-            elif o[0] == 'M':
+            elif o[0] in ('M', 'A'):
+                if o[0] == 'A':
+                    ref, ntail = {}, 0          # LOAD erases first, whatever happens afterwards
                 if st == 107:
                     return None, ntail, None          # Out of memory somewhere in the file: not determined
                 stopped = False
@@ -454,7 +474,7 @@ class C13(core.Check):
                         stopped = True
                         break
                 if st != (108 if stopped else 0):
-                    return None, 0, 'MERGE: expected status %d, got %d' % (108 if stopped else 0, st)
+                    return None, 0, 'MERGE/LOAD of an ASCII file: expected status %d, got %d' % (108 if stopped else 0, st)
         return ref, ntail, None
 
     def oracle(self, case, out):
